@@ -1525,7 +1525,8 @@ def can_extend_leaf_to_make_quantifier_match_parent(
             )
 
             if (
-                node.value == node_in_prefix_tree.value and node_in_prefix_tree.children
+                node.value == node_in_prefix_tree.value
+                and node_in_prefix_tree.children is not None
             ) or reachable(node.value, node_in_prefix_tree.value):
                 return True
 
